@@ -181,3 +181,13 @@ M("c09-h11-idle-without-their-done", "C09", A + "http11.py", "                se
 M("c19-origin-port-normalised-in-place", "C19", "httpcore/_models.py", "    def __eq__(self, other: typing.Any) -> bool:\n        return (\n            isinstance(other, Origin)", "    def __eq__(self, other: typing.Any) -> bool:\n        if isinstance(other, Origin) and other.port is None:\n            other.port = self.port\n        return (\n            isinstance(other, Origin)", "C19.R8")
 M("c11-refusal-reads-body", "C11", A + "http_proxy.py", "                    msg = \"%d %s\" % (connect_response.status, reason_str)\n", "                    msg = \"%d %s\" % (connect_response.status, reason_str)\n                    await connect_response.aread()\n", "C11.R3")
 M("c04-is-closed-trusts-flag", "C04,C06", A + "connection.py", "        if self._connection is None:\n            return self._connect_failed\n        return self._connection.is_closed()", "        if self._connect_failed:\n            return True\n        return self._connection is not None and self._connection.is_closed()", None)
+# ---- configuration plumbing (plumb.py) -------------------------------------------------------------------
+M("plumb-socks-h2-no-keepalive", "C09", A + "socks_proxy.py", "                            origin=self._remote_origin,\n                            stream=stream,\n                            keepalive_expiry=self._keepalive_expiry,\n                        )\n                    else:",
+  "                            origin=self._remote_origin,\n                            stream=stream,\n                        )\n                    else:", "C09.R7")
+M("plumb-pool-socks-http2-from-http1", "C10", A + "connection_pool.py", "                    http1=self._http1,\n                    http2=self._http2,\n                    network_backend=self._network_backend,\n                )\n            elif",
+  "                    http1=self._http1,\n                    http2=self._http1,\n                    network_backend=self._network_backend,\n                )\n            elif", "C10.R8")
+M("plumb-pool-drops-retries", "C20", A + "connection_pool.py", "            retries=self._retries,\n", "", None)
+M("plumb-pool-drops-uds", "C10", A + "connection_pool.py", "            uds=self._uds,\n", "", "C10.R8")
+M("plumb-connection-keepalive-default", "C09", A + "connection.py", "        self._keepalive_expiry = keepalive_expiry\n", "        self._keepalive_expiry = keepalive_expiry or None\n", "C09.R7")
+M("plumb-tunnel-ssl-context-swapped", "C10", A + "http_proxy.py", "            remote_origin=origin,\n            ssl_context=self._ssl_context,\n            proxy_ssl_context=self._proxy_ssl_context,",
+  "            remote_origin=origin,\n            ssl_context=self._proxy_ssl_context,\n            proxy_ssl_context=self._proxy_ssl_context,", "C10.R8")
